@@ -331,6 +331,55 @@ def record_history(Heap, cap, policy, rng, nops, ncost, vmap="rank"):
     return {"cap": cap, "policy": policy, "init": init, "ops": ops, "fin": {**flags(), "drained": 1}, "vmap": vmap, "ncost": ncost}
 
 
+def record_fill_history(Heap, cap, policy, rng, ncost=50):
+    """A large heap filled to exactly its capacity (is_full asked on the way up and at the top), refused inserts at the top, some
+    removes, refilled, drained: C05 speaks of *any* capacity, and nothing in the heap may depend on the capacity being small."""
+    h = Heap(cap, policy)
+    init = [rng.randrange(ncost) for _ in range(cap)]
+    h.cost = [float(c) for c in init]
+    ops = []
+    flags = lambda: {"em": 1 if h.is_empty() else 0, "fu": 1 if h.is_full() else 0}
+    col = ["W"] * cap
+
+    def ins(e):
+        f = flags()
+        try:
+            r = h.insert(e)
+        except Exception:
+            r = "raised"
+        ops.append({"op": "ins", "e": e, "c": 0, "ret": 1 if r is True else (0 if r is False else 2), **f})
+        if r is True:
+            col[e] = "G"
+
+    def rem():
+        f = flags()
+        try:
+            r = h.remove()
+        except Exception:
+            r = "raised"
+        rr = -1 if r is False else (int(r) if isinstance(r, int) and not isinstance(r, bool) else -2)
+        ops.append({"op": "rem", "e": 0, "c": 0, "ret": rr, **f})
+        if 0 <= rr < cap:
+            col[rr] = "B"
+        return rr
+
+    order = list(range(cap))
+    rng.shuffle(order)
+    for e in order:
+        ins(e)
+    for e in rng.sample(range(cap), 3):
+        ins(e)                                   # full: refused, nothing changes
+    for _ in range(rng.randrange(1, 6)):
+        rem()
+    for e in [x for x in range(cap) if col[x] == "B"]:
+        ins(e)                                   # back to exactly full
+    ins(rng.randrange(cap))
+    for _ in range(cap + 2):
+        if rem() < 0:
+            break
+    return {"cap": cap, "policy": policy, "init": init, "ops": ops, "fin": {**flags(), "drained": 1}, "vmap": "rank", "ncost": ncost}
+
+
 _ACT = re.compile(r"^\\\* <(\w+)(?:\(([-\d,]*)\))? line")
 _INITKEY = re.compile(r"key = \(([^)]*)\)")
 
@@ -486,6 +535,10 @@ def run(tier, seed):
             trs = [record_history(Heap, cap, pol, rng, rng.randrange(10, 60 if cap < 15 else (300 if cap < 40 else 500)), rng.choice([2, 3, 5, 50]), vmap=VMAPS[t % len(VMAPS)]) for t in range(nh)]
             rep.sample({"cap": cap, "policy": pol, "first_ops": trs[0]["ops"][:6]}, limit=3)
             nv += judge_histories(rep, cap, pol, trs, "%d%s" % (cap, pol))
+    # ---- B': large capacities, filled to the brim
+    for cap in (258, 300) + ((257, 1000) if thorough else ()):
+        for pol in ("min", "max"):
+            nv += judge_histories(rep, cap, pol, [record_fill_history(Heap, cap, pol, rng) for _ in range(2 if cap < 1000 else 1)], "fill%d%s" % (cap, pol))
     # ---- C (ii): behaviours generated by TLC (-simulate) for larger capacities, replayed and judged
     for cap, pol in ((7, "min"), (10, "max")) + (((10, "min"), (8, "max")) if thorough else ()):   # TLC's simulator refuses states with more than ~100 successors
         sims = simulated_histories(rep, Heap, cap, pol, 400 if thorough else 80, 80, seed + 11)
@@ -496,7 +549,7 @@ def run(tier, seed):
     rep.cov["rule"] = "product states = distinct (abstract PQ state, real heap arrays) pairs reached; histories = random op sequences in PQ's domain with heavy ties, costs handed to the real heap as ranks / negative / fractional / near-overflow / infinite / subnormal values (the trace records ranks)"
     rep.assumptions = [
         "TLC, CommunityModules Json/IOUtils",
-        "exhaustive up to Cap<=%d, costs {0,1,2}; beyond that sampled histories (cap<=20, <=300 ops)" % max(caps),
+        "exhaustive up to Cap<=%d, costs {0,1,2}; beyond that sampled histories (cap<=40, <=500 ops) and fill / refuse / drain histories at capacities 258, 300 (thorough: 257, 1000)" % max(caps),
         "domain: inserts of elements that are not queued (never queued or returned before), improving updates (C05's hypothesis)",
     ]
     return rep.finish()
